@@ -163,12 +163,12 @@ def configs(tier):
 
 # slot = (expect, reason, payload, L, phase, verdict, got, behind_bare_header)     phase 0 header, 1 window open, 2 CRC complete
 class DataRxSpec(Spec):
-    n_validate = 6
-
     def __init__(self, cfg, tier):
         super().__init__(cfg, tier)
         L, k, nv = cfg["L"], cfg["k"], cfg["variants"]
-        self.time_budget = 60 if tier == "quick" else 800
+        # every amaranth.sim replay re-elaborates the DUT (two wide CRC XOR trees: ~10 s of CPU each), so few paths are replayed
+        self.n_validate = 1 if tier == "quick" else 3
+        self.time_budget = 300 if tier == "quick" else 850       # safety net only (a quick config needs 10-20 s of CPU)
         tails = (0, 5) if tier == "quick" else (0, 1, 5)
         n = n_words(L)
         single = [(p, g, f) for p in range(1, n + 1) for g in (1, 2) for f in "zs"]
